@@ -417,6 +417,78 @@ def other_fit_before():
     synth.fit("linear", n_iter=3, seed=11, n_ind=5, n_feat=2)
 
 
+def _attr_digest(obj, skip=()):
+    """value digest of the attributes of an object (tensors / arrays by content, containers recursively, other objects by type name)"""
+    import hashlib
+    import numpy as np
+    import torch
+
+    def canon(x, depth=0):
+        if isinstance(x, torch.Tensor):
+            return ("T", str(x.dtype), tuple(x.shape), hashlib.sha1(x.detach().cpu().contiguous().numpy().tobytes()).hexdigest())
+        if isinstance(x, np.ndarray):
+            return ("A", str(x.dtype), x.shape, hashlib.sha1(np.ascontiguousarray(x).tobytes()).hexdigest())
+        if isinstance(x, (int, float, str, bool, type(None))):
+            return repr(x)
+        if isinstance(x, dict) and depth < 4:
+            return ("D", tuple((repr(k), canon(v, depth + 1)) for k, v in sorted(x.items(), key=lambda kv: repr(kv[0]))))
+        if isinstance(x, (list, tuple)) and depth < 4:
+            return ("L", tuple(canon(v, depth + 1) for v in x))
+        return ("O", type(x).__name__)
+    return {k: canon(v) for k, v in vars(obj).items() if k not in skip}
+
+
+def observer_purity(run: Run):
+    """What logging does at an iteration is an OBSERVATION: around every call of the output manager the algorithm object, each of its
+    samplers and the values of the model state must be exactly what they were (attribute by attribute) — nothing an observer
+    computes may be kept where the run will read it later."""
+    from harness import synth
+    from leaspy.algo.fit.fit_output_manager import FitOutputManager
+    orig = FitOutputManager.iteration
+    found = {}
+
+    def wrapped(self, algo, model, data):
+        def snap():
+            d = {"algo": _attr_digest(algo, skip=("output_manager", "samplers"))}
+            for name, sp in getattr(algo, "samplers", {}).items():
+                d[f"sampler:{name}"] = _attr_digest(sp)
+            d["state"] = {k: (None if v is None else _attr_digest(type("X", (), {"v": getattr(v, "value", v), "w": getattr(v, "weight", None)})()))
+                          for k, v in model.state._values.items()}
+            d["fork"] = repr(None if model.state._last_fork is None else sorted(model.state._last_fork))
+            return d
+        before = snap()
+        try:
+            return orig(self, algo, model, data)
+        finally:
+            after = snap()
+            # reading a derived variable fills its cache entry (C01: transparent): for the state only entries that HELD a value count
+            after["state"] = {k: (before["state"][k] if before["state"].get(k) is None else v) for k, v in after["state"].items()}
+            for part in before:
+                if before[part] != after[part] and part not in found:
+                    keys = [k for k in before[part] if before[part].get(k) != after[part].get(k)] if isinstance(before[part], dict) else []
+                    keys += [k for k in (after[part] if isinstance(after[part], dict) else {}) if k not in (before[part] if isinstance(before[part], dict) else {})]
+                    found[part] = (getattr(algo, "current_iteration", None), keys[:6])
+    FitOutputManager.iteration = wrapped
+    wd = tmpdir()
+    try:
+        for logs in (dict(print_periodicity=1), dict(print_periodicity=2, save_periodicity=1, plot_periodicity=2, plot_patient_periodicity=2, path=os.path.join(wd, "l"))):
+            found.clear()
+            run.case(("observer-purity", tuple(sorted(k for k in logs))), nontrivial=True)
+            try:
+                with quiet(wd):
+                    synth.fit("logistic", n_iter=5, seed=run.seed % 997, n_ind=8, **logs)
+            except Exception as e:
+                run.fail(f"logging:abort:{type(e).__name__}", f"fit with logging {sorted(logs)} raised {type(e).__name__}: {e}", dict(logs={k: v for k, v in logs.items() if k != "path"}))
+                continue
+            for part, (it, keys) in found.items():
+                run.fail(f"logging:observer-changes:{part.split(':')[0]}",
+                         f"the logging done at iteration {it} changed {part} (attributes {keys}): an observer must leave the run's objects untouched",
+                         dict(algo="mcmc_saem", kind="logistic", n_iter=5, logs={k: v for k, v in logs.items() if k != "path"}, changed=part, attributes=keys))
+    finally:
+        FitOutputManager.iteration = orig
+        shutil.rmtree(wd, ignore_errors=True)
+
+
 def metamorphic(run: Run, thorough: bool):
     from harness import synth
     n_iter = 4
@@ -656,6 +728,7 @@ def main(run: Run):
     try:
         trace_correspondence(run, thorough)
         settings_copy(run)
+        observer_purity(run)
         metamorphic(run, thorough)
     finally:
         shutil.rmtree(SCRATCH, ignore_errors=True)
